@@ -201,6 +201,32 @@ def roundtrip_path():
     return path
 
 
+def eqstr_path():
+    """Obis == string parses the string first: compared with its own reduced string, the result is True exactly when no optional group is 0
+    (a zero optional group is dropped by the reduced form and comes back as absent)"""
+    def path(eng, ctx):
+        import han.obis as O
+        pres = eng.pick(16)
+        g = free_groups(eng, "g", pres, nonzero_optional=False)
+        o = O.Obis(g)
+        s = o.to_reduced_str()
+        back = None
+        try:
+            back = O.to_obis_tupple(s)
+        except ENGINE_EXC:
+            raise
+        except ValueError:
+            pass
+        w = {"sub": "eqstr", "a": list(g), "text": s, "expect": None if back is None else list(back)}
+        ctx.witness = w
+        ctx.nontrivial()
+        r = (o == s)
+        ctx.obs = r
+        spec = z3.BoolVal(False) if back is None else eq_groups(back, g)
+        ctx.check_iff(r if isinstance(r, (bool, SBool)) else bool(r), SBool(spec), "Obis == string  <=>  groups == groups parsed from the string", w)
+    return path
+
+
 def scenarios(tier):
     q = tier == "quick"
     A = inject.assumptions(("obis",)) + ["hash() = uninterpreted function of the group tuple (models equal-arguments-equal-hash only)"]
@@ -211,6 +237,8 @@ def scenarios(tier):
                      bounds={"length": f"1..{4 if q else 6}", "alphabet": ALPHA}, domains=("obis",), frontier=6, assumptions=A, replay_cap=200),
             Scenario("== and hash on two free group tuples (16 x 16 presence patterns)", eq_path(), bounds={"groups": "0..255 free, any presence pattern on both sides"}, domains=("obis",), frontier=3, assumptions=A, replay_cap=120,
                      must_reach=("assert", "iff:true", "iff:false")),
+            Scenario("== with a string: every presence pattern, optional groups may be 0", eqstr_path(), bounds={"groups": "0..255 free, optional groups absent or 0..255", "string": "the object's own reduced form"},
+                     domains=("obis",), frontier=4, assumptions=A, replay_cap=120, must_reach=("assert", "iff:true", "iff:false")),
             Scenario("round trip from_string(to_reduced_str()) for all 16 presence patterns, optional groups non-zero", roundtrip_path(),
                      bounds={"groups": "C, D in 0..255; optional groups absent or 1..255"}, domains=("obis",), frontier=4, assumptions=A, replay_cap=200)]
 
